@@ -72,3 +72,13 @@ package ipc
 //@ func (*listener).Listen$1
 //@   before call:NewConnPipeIPC#1 assert arg1.Self == l.proto.Self && arg1.Peer == l.proto.Peer && arg1.SelfName == l.proto.SelfName && arg1.PeerName == l.proto.PeerName && arg0 == conn
 //@   before call:Start#1 assert arg0 == p
+
+// ---- round 5b: Listen ----
+//@ func (*listener).Listen
+//@   before call:ListenUnix#1 assert sel("select#1") != 0 && arg0 == "unix" && arg1 == l.addr
+//@   before call:ListenUnix#2 assert arg0 == "unix" && arg1 == l.addr && called("removeStaleIPC")
+//@   ensures sel("select#1") == 0 ==> result == mangos.ErrClosed && !spawned("Listen$1") && !called("ListenUnix")
+//@   ensures !isnil(result) ==> !spawned("Listen$1")
+//@   ensures isnil(result) ==> spawned("Listen$1")
+//@   before call:Chown#1 assert l.chown && arg1 == l.owner && arg2 == l.group
+//@   before call:Chmod#1 assert l.chmod
